@@ -173,7 +173,8 @@ CLAIMED["C18"] = (
     "Invalid half: on top of a generated valid base exactly one documented constraint is violated (non-positive / non-integer n_dim or n_particles, "
     "non-positive ess_ratio / volume_variation, unknown kernel / resampler, vectorize with blobs, overlapping / out-of-range / non-integer boundary "
     "indices); the constructor must raise and the instrumented likelihood must have seen 0 points. Valid half: every pair (quick) / triple (thorough) "
-    "of values of the 13 options + dimension occurs in at least one executed run (coverage verified and reported); each must complete and satisfy the run postconditions.",
+    "of values of the 13 options + dimension occurs in at least one executed run (coverage verified and reported); each must complete and satisfy the run postconditions. "
+    "A third check (valid_full) runs random complete valid configurations from vlib.cfggen, which reach higher-order combinations with high probability.",
     "t-wise coverage, not the full product (~1e6 combinations); interactions of 4+ options are only sampled. Undocumented values are not asserted either way.",
     "DESIGN.md §2 C18",
 )
